@@ -7050,7 +7050,8 @@ class SFTPServerHandler(SFTPHandler):
 
         self._log_extensions(rcvd_extensions)
 
-        self._version = min(version, self._version)
+        # Don't agree to a version older than the oldest one implemented
+        self._version = max(min(version, self._version), MIN_SFTP_VERSION)
 
         extensions: List[Tuple[bytes, bytes]] = []
 
